@@ -21,6 +21,8 @@ GenerateOp(slot) == [op |-> "Generate", b |-> 0, slot |-> slot]
 CLeewayOp(claim, secs) == [op |-> "CLeeway", c |-> 0, claim |-> claim, secs |-> secs]
 CClaimSetOp(claim, v) == [op |-> "CClaimSet", c |-> 0, claim |-> claim, val |-> v]
 CClaimDelOp(claim) == [op |-> "CClaimDel", c |-> 0, claim |-> claim]
+ForgeOp(slot, tok) == [op |-> "Forge", slot |-> slot, tok |-> tok]
+SlotTok(slot) == [src |-> "slot", slot |-> slot]
 CbKey(idx) == [k |-> "key", ring |-> 0, key |-> idx]
 CbAlg(a) == [k |-> "alg", alg |-> a]
 CbRet(r) == [k |-> "ret", ret |-> r]
